@@ -13,7 +13,7 @@ from typing import List, Optional
 from ..astutil import Defs, loads, none_test
 from ..core import AnalysisError, attr_chain, short, walk_no_nested, walk_stmts
 from ..effects import effects_of
-from ..joinsx import VARIANTS, JoinModel
+from ..joinsx import VARIANTS, JoinModel, JoinOrderViolation
 from . import joinrules as jr
 
 
@@ -42,7 +42,11 @@ def run(ctx) -> None:
     facts = {}
     for v in VARIANTS:
         def one(v=v):
-            jf = JoinModel(ctx.prog, v)
+            try:
+                jf = JoinModel(ctx.prog, v)
+            except JoinOrderViolation as ex:
+                ctx.ob("b.loops", ctx.prog.func(f"table.Table.{v}"), "emission-order", False, "", ex.node, message=str(ex))
+                return
             facts[v] = jf
             jr.no_early_result(ctx, jf, "d.no-early-result")
             jr.key_symmetry(ctx, jf)
